@@ -124,6 +124,7 @@ SHARDS.update({
 # TextCanvas.content on canvases of two / three spelled-out rows (contracts/C02_content.py): every row window x every column
 # window x with / without a map; ~3 min / ~10 min on one core
 SHARDS.update({
+    "urwid/canvas.py:TextCanvas.content": (6, 8),  # one row: ~190 paths, ~30 s on one core
     "urwid/canvas.py:TextCanvas.content#two-rows": (8, 8),
     "urwid/canvas.py:TextCanvas.content#three-rows": (16, 10),
 })
